@@ -34,6 +34,10 @@ func (s *Service) SignBlobSidecar(ctx context.Context,
 	ctx, span := otel.Tracer("attestantio.vouch.services.signer.standard").Start(ctx, "SignBlobSidecar")
 	defer span.End()
 
+	if s.blobSidecarDomainType == nil {
+		return phase0.BLSSignature{}, errors.New("no blob sidecar domain type available; cannot sign")
+	}
+
 	// Fetch the domain.
 	domain, err := s.domainProvider.Domain(ctx,
 		*s.blobSidecarDomainType,
